@@ -24,7 +24,29 @@ MODES = ("shared", "isolated", "placed")
 # the baton at any time; a thread is pre-empted at line events inside the repository's own code,
 # at points chosen by the same Choices object (so the interleaving is seeded and replayable)
 ALL_MODES = MODES + ("threads",)
-QUANTA = (1, 2, 5, 20, 100, 10 ** 9)  # line events a resumed task may run before it yields
+# How long a resumed task runs before it yields: a number of line events, or (negative) "until
+# the k-th next point that directly follows a statement that stored into an object attribute or
+# item" - the instant at which shared state may be half-built, which is where concurrent tasks
+# sharing an estimator can hurt each other.
+QUANTA = (1, 2, 5, 20, 100, 10 ** 9, -1, -1, -2, -3)
+_STORE_OPS = {"STORE_ATTR", "STORE_SUBSCR", "DELETE_ATTR", "STORE_SLICE"}
+_STORE_LINES = {}
+
+
+def _store_lines(code):
+    """Line numbers of a code object that contain an attribute / item store."""
+    got = _STORE_LINES.get(code)
+    if got is None:
+        import dis
+
+        got, cur = set(), None
+        for ins in dis.get_instructions(code):
+            if ins.starts_line is not None:
+                cur = ins.starts_line if not isinstance(ins.starts_line, bool) else ins.positions.lineno
+            if ins.opname in _STORE_OPS and cur is not None:
+                got.add(cur)
+        _STORE_LINES[code] = got
+    return got
 POLICIES = ("random", "fifo", "lifo", "stall", "reduce_last", "reduce_first")
 
 
@@ -378,6 +400,7 @@ class _TaskThread:
         self.value = None
         self.quantum = 0
         self.preempted = 0
+        self.last = None  # (code, line) of the line event seen last in this thread
         self.thread = threading.Thread(target=self._body, daemon=True)
         self.thread.start()
 
@@ -401,8 +424,18 @@ class _TaskThread:
 
     def _trace_line(self, frame, event, arg):
         if event == "line":
-            self.quantum -= 1
-            if self.quantum <= 0:
+            last, self.last = self.last, (frame.f_code, frame.f_lineno)
+            if self.quantum < 0:
+                # hunting: count only points that directly follow an attribute / item store
+                if last is not None and last[1] in _store_lines(last[0]):
+                    self.quantum += 1
+                    stop = self.quantum == 0
+                else:
+                    stop = False
+            else:
+                self.quantum -= 1
+                stop = self.quantum <= 0
+            if stop:
                 self.preempted += 1
                 self.sim.stats["preemptions"] += 1
                 self.sim._back.set()
@@ -459,7 +492,7 @@ def make_sim(sched, replay=None):
 def gen_sched(rng, modes=ALL_MODES):
     """Swarm-style draw of an executor model and policy."""
     modes = list(modes)
-    mode = rng.choices(modes, [1 if m == "threads" else 3 for m in modes])[0]
+    mode = rng.choices(modes, [2 if m == "threads" else 3 for m in modes])[0]
     if os.environ.get("VERIF_FORCE_MODE") in ALL_MODES:  # targeted exploration / self-tests
         mode = os.environ["VERIF_FORCE_MODE"]
     r = rng.random()
